@@ -15,6 +15,8 @@ def run(ctx):
         "process-shared runs under memory pressure (driver mode bigrand) are judged with the named deviations of CacheTrace.tla: extra victims (each by the rule), dropped store, clear on allocation failure",
     ]
     ctx.design("Cache/Cache.tla", "Cache08_quick.cfg" if q else "Cache08.cfg", workers=16, timeout=1500, heap="16g")
+    ctx.design("Cache/Cache.tla", "Cache_shared_quick.cfg", workers=12, timeout=900,
+               note="process-shared deviations as named actions (extra victims by the rule, dropped store, clear): EvictOrder + all invariants")
     import cacheimpl
     cacheimpl.run(ctx)
     buddy(ctx)
